@@ -183,6 +183,17 @@ func genC22(t *rapid.T) srvCase {
 			ops[i].X = "last"
 		}
 	}
+	// frequent pattern: a message is parked for a peer whose relay loop is held, the sender re-attaches
+	// (new epoch), then the loop is released
+	if rapid.IntRange(0, 2).Draw(t, "pattern") == 0 {
+		p := rapid.IntRange(0, 1).Draw(t, "pp")
+		q := 1 - p
+		pat := []sop{{Op: "attach", P: p, Q: q}, {Op: "attach", P: q, Q: p}, {Op: "gate", P: q, Q: p},
+			{Op: "send", P: p, Q: q, Kind: "honest", Epoch: "current"}, {Op: "send", P: p, Q: q, Kind: "honest", Epoch: "current"},
+			{Op: "attach", P: p, Q: q}, {Op: "release", P: q, Q: p}}
+		at := rapid.IntRange(0, len(ops)).Draw(t, "at")
+		ops = append(append(append([]sop{}, ops[:at]...), pat...), ops[at:]...)
+	}
 	return srvCase{Ops: ops}
 }
 
